@@ -171,20 +171,33 @@ func TypeMapOf(typ reflect.Type) map[string]reflect.Type {
 
 //FetchType map
 func FetchType(typ reflect.Type, typMap map[string]reflect.Type) {
+	fetchType(typ, typMap, make(map[reflect.Type]bool))
+}
+
+// fetchType walks typ; seen holds the named list, map and pointer types on the way (a named type can
+// contain itself: type Nest []Nest, type Tree map[string]Tree), struct types are cut off by typMap
+func fetchType(typ reflect.Type, typMap map[string]reflect.Type, seen map[reflect.Type]bool) {
 	typ = UnpackPtrType(typ)
 
 	if IsRawKind(typ.Kind()) {
 		return
 	}
 
+	if typ.Kind() != reflect.Struct && typ.Name() != "" {
+		if _, ok := seen[typ]; ok {
+			return
+		}
+		seen[typ] = true
+	}
+
 	if typ.Kind() == reflect.Array || typ.Kind() == reflect.Slice {
-		FetchType(typ.Elem(), typMap)
+		fetchType(typ.Elem(), typMap, seen)
 		return
 	}
 
 	if typ.Kind() == reflect.Map {
-		FetchType(typ.Key(), typMap)
-		FetchType(typ.Elem(), typMap)
+		fetchType(typ.Key(), typMap, seen)
+		fetchType(typ.Elem(), typMap, seen)
 		return
 	}
 
@@ -198,7 +211,7 @@ func FetchType(typ reflect.Type, typMap map[string]reflect.Type) {
 	}
 	typMap[typ.Name()] = typ
 	for i := 0; i < typ.NumField(); i++ {
-		FetchType(typ.Field(i).Type, typMap)
+		fetchType(typ.Field(i).Type, typMap, seen)
 	}
 
 }
